@@ -646,4 +646,48 @@ theorem hfoldCtx_handlers (t : ClassId) (n : Name) (v : Comp) (cs : List Comp) (
       simp only [hk', hk'', if_false]
       simp [hAddHandler, hk3]
 
+
+theorem mem_dropLast_of_split {α : Type} (pre post : List α) (v : α) (hpost : post ≠ []) :
+    v ∈ (pre ++ v :: post).dropLast := by
+  induction pre with
+  | nil =>
+    cases post with
+    | nil => exact absurd rfl hpost
+    | cons y ys => simp [List.dropLast_cons_cons]
+  | cons a pre ih =>
+    cases hq : pre ++ v :: post with
+    | nil => simp at hq
+    | cons b l =>
+      rw [List.cons_append, hq, List.dropLast_cons_cons, ← hq]
+      exact List.mem_cons_of_mem _ ih
+
+theorem hAddHandler_ignore_mono (t : ClassId) (n : Name) (v : Comp) (r : HReg) (c x u : Comp)
+    (h : x ∈ r.ignore u) : x ∈ (hAddHandler t n v r c).ignore u := by
+  simp only [hAddHandler]
+  split <;> simp [h]
+
+theorem hfoldCtx_ignore_mono (t : ClassId) (n : Name) (v : Comp) (cs : List Comp) (r : HReg) (x u : Comp)
+    (h : x ∈ r.ignore u) : x ∈ (cs.foldl (hAddHandler t n v) r).ignore u := by
+  induction cs generalizing r with
+  | nil => exact h
+  | cons c cs ih => rw [List.foldl_cons]; exact ih _ (hAddHandler_ignore_mono t n v r c x u h)
+
+/-- the context loop tells EVERY handler present in the table of each of the new contexts to ignore it -/
+theorem hfoldCtx_ignore (t : ClassId) (n : Name) (v : Comp) (cs : List Comp) (hnd : cs.Nodup) (r : HReg) (c u : Comp)
+    (hc : c ∈ cs) (hu : u ∈ r.handlers t n c) : c ∈ (cs.foldl (hAddHandler t n v) r).ignore u := by
+  induction cs generalizing r with
+  | nil => simp at hc
+  | cons c0 cs ih =>
+    rw [List.foldl_cons]
+    by_cases hcc : c = c0
+    · subst hcc
+      apply hfoldCtx_ignore_mono
+      simp [hAddHandler, hu]
+    · have hcs : c ∈ cs := by
+        rcases List.mem_cons.mp hc with h | h
+        · exact absurd h hcc
+        · exact h
+      apply ih (List.nodup_cons.mp hnd).2 _ hcs
+      simp [hAddHandler, hcc, hu]
+
 end IV.Specs
